@@ -45,7 +45,11 @@ def stAgree (c : XRat → XRat → Bool) (m i : St) : Bool :=
   all3 i.A i.S i.O (fun a s o => c (get3 m.Om a s o) (get3 i.Om a s o))
 
 /-- slack used by the property clause: the library tolerance plus 1e-9 for double rounding of the sum -/
-def slack : Rat := tol + eps
+/-- the documented tolerance ("off by rounding": 1e-6, Utils/Core.hpp).  The property clauses are evaluated with THIS number, not with
+    the regenerated `tol` the model follows (equal today: theorem `tolerance_is_documented`), so that a widened library tolerance
+    yields a failing input (a stored row that is no distribution) and not only a broken obligation -/
+def docTol : Rat := 1 / 1000000
+def slack : Rat := docTol + eps
 
 def rowsDistB (t : Tab3) : Bool := t.all fun m => m.all (rowDistB slack)
 
@@ -489,7 +493,7 @@ def coopdynLine : P String := do
         let v := v.diffIf (ddnIdsOfRow S ps j != (pid, aid)) s!"DDNGraph::getIds feature={i} j={j} model={(ddnIdsOfRow S ps j)} impl=({pid},{aid})"
         v.diffIf (ddnPartialSize S ps aid != part) s!"DDNGraph::getPartialSize feature={i} actionId={aid} model={ddnPartialSize S ps aid} impl={part}") v) v
   -- dynamics and rewards
-  let jslack : Rat := tol * n + eps
+  let jslack : Rat := docTol * n + eps
   let v := queries.foldl (fun (v : Verdict) (s, a, viaCopy, rew, pr, sub, pm) =>
       let who := if viaCopy then comp ++ "(copy)" else comp
       let mrow := jointRow g mats s a
